@@ -222,7 +222,7 @@ func (c *Ctx) Solve(timeoutMs int, par int, crossCheck bool) {
 			if o.Vacuity && !crossCheck {
 				// reachability: look for a witness of the ground part first (quantified premises make
 				// model finding slow; they only restrict further, see the fallback note below)
-				r0 := runSolvers(c.QueryNoQuant(o), timeoutMs, false, solvers[:2])
+				r0 := runSolvers(c.QueryNoQuant(o), min(5000, timeoutMs), false, solvers[:2])
 				if r0.status == "sat" || r0.status == "unsat" {
 					r = r0
 					if r0.status == "sat" {
@@ -246,14 +246,6 @@ func (c *Ctx) Solve(timeoutMs int, par int, crossCheck bool) {
 			}
 			if r.status != "unsat" {
 				o.Output = truncate(r.out, 4000)
-			}
-			if r.status == "unknown" && o.Vacuity {
-				// reachability with the quantified assumptions dropped (they only restrict further;
-				// as a vacuity guard this still exposes contradictions among the ground facts)
-				r2 := runSolvers(c.QueryNoQuant(o), min(5000, timeoutMs), false, solvers[:1])
-				if r2.status == "sat" {
-					o.Status, o.Solver = "sat", r2.solver+" (ground part)"
-				}
 			}
 			if r.status == "unknown" && !o.Vacuity && !strings.Contains(o.goal.S, "(exists ") {
 				// look for a candidate counterexample without the quantified assumptions
